@@ -323,10 +323,99 @@ def run(ctx):
         # ---------------- R20e keyword names (thorough)
         if ctx.tier == "thorough":
             ctx.guard(r20e, mname, tree, local)
+    ctx.guard(r20f)
     ctx.analysed["chains_per_module"] = per_module
     ctx.analysed["deprecated_but_present"] = {k: sorted(v) for k, v in dep_seen.items()}
     if n_chains < 500:
         raise AnalysisError(f"only {n_chains} library attribute chains found (>1000 on the pinned tree): enumeration broken")
+
+
+def module_level_names(tree):
+    names = set()
+
+    def add_target(t):
+        for n in ast.walk(t):
+            if isinstance(n, ast.Name):
+                names.add(n.id)
+
+    def walk(body):
+        for st in body:
+            if isinstance(st, (ast.FunctionDef, ast.AsyncFunctionDef, ast.ClassDef)):
+                names.add(st.name)
+            elif isinstance(st, ast.Assign):
+                for t in st.targets:
+                    add_target(t)
+            elif isinstance(st, (ast.AnnAssign, ast.AugAssign)):
+                add_target(st.target)
+            elif isinstance(st, ast.Import):
+                for a in st.names:
+                    names.add(a.asname or a.name.split(".")[0])
+            elif isinstance(st, ast.ImportFrom):
+                for a in st.names:
+                    names.add("*" if a.name == "*" else (a.asname or a.name))
+            elif isinstance(st, (ast.If, ast.Try, ast.With, ast.For, ast.While)):
+                for f in ("body", "orelse", "finalbody"):
+                    walk(getattr(st, f, []) or [])
+                for h in getattr(st, "handlers", []):
+                    walk(h.body)
+    walk(tree.body)
+    names |= {"__file__", "__name__", "__doc__", "__path__", "__package__", "__spec__", "__dict__", "__loader__"}     # implicit module attributes
+    return names
+
+
+def r20f(ctx):
+    """imports between the package's own modules: `from pyrex.x import name` / `from .x import name` must name a module of the package and a
+    module-level definition in it -- importing each sub-package succeeds only if these resolve (the custom sub-packages cannot be imported here,
+    so no test would notice a helper renamed in one place only)."""
+    repo = ctx.repo
+    ctx.rule("R20f", "every import between the package's own modules names an existing module and a name defined at its top level", expected=40, kind="S")
+    defs = {m: module_level_names(t) for m, t in repo.modules.items()}
+    for mname, tree in repo.modules.items():
+        path = repo.paths[mname]
+        for n in ast.walk(tree):
+            if isinstance(n, ast.ImportFrom):
+                base = repo.abs_from(mname, n) if n.level else (n.module or "")
+                if not (base == repo.PKG or base.startswith(repo.PKG + ".")):
+                    continue
+                for a in n.names:
+                    if a.name == "*":
+                        continue
+                    ctx.count("internal_imports")
+                    target_mod = base
+                    what = f"from {base} import {a.name}"
+                    if target_mod not in repo.modules:
+                        ctx.bad("R20f", f"{path}:{what}", "the imported module exists in the package", f"no module {target_mod}", key_detail="missing internal module",
+                                loc=ctx.loc(mname, n))
+                        continue
+                    ok = a.name in defs[target_mod] or "*" in defs[target_mod] or (target_mod + "." + a.name) in repo.modules
+                    ctx.check(ok, "R20f", f"{path}:{what}", "the imported name is defined at the top level of that module (or is a sub-module)",
+                              "" if ok else f"{a.name} is not defined in {repo.paths[target_mod]}", key_detail="missing internal name", loc=ctx.loc(mname, n))
+            elif isinstance(n, ast.Import):
+                for a in n.names:
+                    if a.name == repo.PKG or a.name.startswith(repo.PKG + "."):
+                        ctx.count("internal_imports")
+                        ctx.check(a.name in repo.modules, "R20f", f"{path}:import {a.name}", "the imported module exists in the package", "", key_detail="missing internal module",
+                                  loc=ctx.loc(mname, n))
+    # attribute access on internally imported modules:  `import pyrex.x as m; m.name`
+    for mname, tree in repo.modules.items():
+        path = repo.paths[mname]
+        alias = {}
+        for n in ast.walk(tree):
+            if isinstance(n, ast.Import):
+                for a in n.names:
+                    if a.asname and a.name in repo.modules:
+                        alias[a.asname] = a.name
+            elif isinstance(n, ast.ImportFrom):
+                base = repo.abs_from(mname, n) if n.level else (n.module or "")
+                for a in n.names:
+                    if (base + "." + a.name) in repo.modules:
+                        alias[a.asname or a.name] = base + "." + a.name
+        for root, attrs, outer in maximal_chains(tree):
+            if root.id in alias and not shadowed(root) and attrs:
+                tm = alias[root.id]
+                ok = attrs[0] in defs[tm] or "*" in defs[tm] or (tm + "." + attrs[0]) in repo.modules      # a star import may define anything
+                ctx.check(ok, "R20f", f"{path}:{tm}.{attrs[0]}", "attribute of an internally imported module is defined there", "", key_detail="missing internal attribute",
+                          loc=ctx.loc(mname, outer))
 
 
 def r20e(ctx, mname, tree, local):
@@ -365,6 +454,9 @@ def r20e(ctx, mname, tree, local):
 
 SELFTEST = {
     "faults": [
+        {"name": "helper renamed in internal_functions, one custom import site forgotten", "file": "pyrex/internal_functions.py", "old": "def normalize(vector):", "new": "def normalise(vector):",
+         "rule": "R20f"},
+        {"name": "sub-package imports a module that does not exist", "file": "pyrex/custom/irex/__init__.py", "old": "from .antenna import", "new": "from .antennas import", "rule": "R20f"},
         {"name": "removed numpy alias", "file": "pyrex/earth_model.py", "old": "np.linspace(", "new": "np.linspace_(",
          "rule": "R20a", "construct": "earth_model"},
         {"name": "unguarded optional import", "file": "pyrex/kernel.py", "old": "import logging\n", "new": "import logging\nimport PySpice\n",
